@@ -299,6 +299,32 @@ def explore_flat(case):
             want = J @ wd + np.cross(w, J @ w)
             if maxabs(Mb - want) > 1e-9 * (1 + maxabs(want)):
                 res.fail(site=site, clause="moment_satisfies_euler_equation", cls="regular", detail=dict(info, M=Mb, want=want), sub="flat", case=case)
+        # the parametric variant with non-default mass / gravity / inertia incl. a product of inertia J_xz
+        for pm, pg, Jp in ((1.3, 9.81, (0.03, 0.02, 0.05, 0.004)), (3.0, 3.7, (0.05, 0.08, 0.06, -0.01))):
+            o3 = M["mr_ref_traj"](psi, pd, pdd, v, a, j, s, pm, pg, *Jp)
+            vb3, _, w3, wd3, Mb3, T3 = [arr(x) for x in o3]
+            C3 = np.array(o3[1], dtype=float)
+            th3 = pm * (np.array([0, 0, pg]) - a)
+            n3 = float(np.linalg.norm(th3))
+            res.count("evaluations")
+            if n3 <= 1e-4 or float(np.linalg.norm(np.cross(th3 / n3, xc))) <= 1e-4:
+                if not ref.is_rotation(C3, 1e-9):
+                    res.fail(site="mr_ref_traj", clause="orthonormal_right_handed_matrix_in_every_cell", cls="degenerate;params", detail=dict(info, m=pm, g=pg, J=Jp), sub="flat", case=case)
+                continue
+            Jm = np.array([[Jp[0], 0, Jp[3]], [0, Jp[1], 0], [Jp[3], 0, Jp[2]]])
+            bad = None
+            if not ref.is_rotation(C3, 1e-9) or maxabs(C3[:, 2] - th3 / n3) > 1e-9 or abs(float(C3[:, 1] @ xc)) > 1e-9 or abs(float(T3[0]) - n3) > 1e-9 * (1 + n3):
+                bad = "set_point_alignment_with_parameters"
+            elif np.all(np.isfinite(w3)) and np.all(np.isfinite(wd3)) and np.all(np.isfinite(Mb3)):
+                want3 = Jm @ wd3 + np.cross(w3, Jm @ w3)
+                zb3 = th3 / n3
+                zbd3 = (np.eye(3) - np.outer(zb3, zb3)) @ (-pm * j) / n3
+                if maxabs(Mb3 - want3) > 1e-9 * (1 + maxabs(want3)):
+                    bad = "moment_satisfies_euler_equation"
+                elif abs(w3[0] + float(zbd3 @ C3[:, 1])) > 1e-9 * (1 + abs(w3[0])) or abs(w3[1] - float(zbd3 @ C3[:, 0])) > 1e-9 * (1 + abs(w3[1])):
+                    bad = "roll_pitch_rates_are_thrust_axis_rotation_rate"
+            if bad:
+                res.fail(site="mr_ref_traj", clause=bad, cls="regular;params", detail=dict(info, m=pm, g=pg, J=Jp, omega=w3, M=Mb3), sub="flat", case=case)
         # the two shipped variants agree
         same = ref.rot_dist(ref.R_from_quat(quat), Cbe) <= 1e-9 and maxabs(vb1 - vb2) <= 1e-9 * (1 + maxabs(vb2)) and abs(T1[0] - T2[0]) <= 1e-9 * (1 + nF)
         fin = all(np.all(np.isfinite(x)) for x in (w1, w2, wd1, wd2, Mb1, Mb2))
